@@ -138,6 +138,9 @@ def mean_asymmetric_error(
             Thomson, South-Western: Ohio, US.
     """
     _, y_true, y_pred, multioutput = _check_reg_targets(y_true, y_pred, multioutput)
+    # errors of integer-valued targets are computed in floating point: np.square of
+    # an integer array silently wraps around
+    y_true, y_pred = y_true.astype(np.float64), y_pred.astype(np.float64)
 
     if horizon_weight is not None:
         check_consistent_length(y_true, horizon_weight)
@@ -1045,6 +1048,9 @@ def median_squared_error(
             Journal of Forecasting, Volume 22, Issue 4.
     """
     _, y_true, y_pred, multioutput = _check_reg_targets(y_true, y_pred, multioutput)
+    # errors of integer-valued targets are computed in floating point: np.square of
+    # an integer array silently wraps around
+    y_true, y_pred = y_true.astype(np.float64), y_pred.astype(np.float64)
     if horizon_weight is None:
         output_errors = np.median(np.square(y_pred - y_true), axis=0)
 
